@@ -14,6 +14,9 @@ import z3
 from . import irparse as ir
 
 
+# names of the IR functions whose bodies were interpreted in this process (coverage audit: tools/coverage_audit.py)
+EXECUTED = set()
+
 class ExecError(Exception):
     """Something the interpreter cannot model: the run is inconclusive."""
     def __init__(self, kind, msg):
@@ -1327,6 +1330,7 @@ class Interp:
             self._mod_stack.pop()
 
     def _exec(self, fn, args, start=None):
+        EXECUTED.add(fn.name)
         lay = self.prog.layout(fn.module)
         regs = {}
         allocas = []
